@@ -168,12 +168,23 @@ def ownOf (cs : List ParsedClass) (f : ParsedClass → List Name) (n : Name) : L
 
 def hasInit (c : ParsedClass) : Bool := !c.ctor.isEmpty || !c.args.isEmpty
 
+/-- the name → declaring ancestor map `observed_properties` after one more ancestor `a`, and whether a
+property name was already observed for *another* ancestor (`another_ancestor is not ancestor`; the ontology's
+ancestor list repeats a class over diamonds, which is no conflict) -/
+def observeProps (obs : List (Name × Name) × Bool) (a : Name) (ps : List Name) : List (Name × Name) × Bool :=
+  ps.foldl (fun t p =>
+    match t.1.find? (fun e => e.1 = p) with
+    | none => (t.1 ++ [(p, a)], t.2)
+    | some e => (t.1, t.2 || decide (e.2 ≠ a))) obs
+
 def ontologyErrors (cs : List ParsedClass) (anc : Name → List Name) : Bool :=
   cs.any (fun c =>
-    let obs := (anc c.name).foldl (fun (s : List Name × List Name) a =>
-        let ps := s.1 ++ ownOf cs (·.ownProps) a
-        (ps, s.2 ++ (ownOf cs (·.ownMethods) a).filter (fun m => !(ps.contains m)))) ([], [])
-    c.ownProps.any (obs.1.contains ·) || c.ownMethods.any (obs.2.contains ·)
+    let obs := (anc c.name).foldl (fun (s : (List (Name × Name) × Bool) × List Name) a =>
+        (observeProps s.1 a (ownOf cs (·.ownProps) a), s.2 ++ ownOf cs (·.ownMethods) a)) (([], false), [])
+    let obsP := obs.1.1.map (·.1)
+    obs.1.2
+    || c.ownProps.any (fun p => obsP.contains p || obs.2.contains p)
+    || c.ownMethods.any (fun m => obs.2.contains m || obsP.contains m)
     || (!hasInit c && (anc c.name).any (fun a => !(ownOf cs (·.args) a).isEmpty)))
 
 /-! ## `construction.understand_all`: what can go wrong with a rendered constructor -/
